@@ -29,6 +29,12 @@ def decAll : List String → Option (List (List UInt8))
 def runLine (line : String) : String :=
   match words line with
   | feed :: dataT :: unitTs =>
+    let feedOk : Bool := feed == "str" || feed == "file" ||
+      (match feed.splitOn ":" with
+       | ["pipe", p, sz] => p.toNat?.isSome && !(sz.splitOn ",").isEmpty &&
+                            (sz.splitOn ",").all (fun t => (t.toNat?.getD 0) > 0)
+       | _ => false)
+    if !feedOk then "bad-case\t-" else
     match decBytes dataT, decAll unitTs with
     | some data, some units =>
       let script := units.flatten
